@@ -215,6 +215,10 @@ class Gen:
         forms, S = self.settings()
         o = {'op': 'apply', 'r': r, 'sets': forms, 'S': S, 'start': self.bound(r, False) if self.rng.random() < 0.8 else 0,
              'end': self.bound(r), 'top': self.rng.random() < 0.55}
+        if self.rng.random() < 0.06:
+            n = self.length(r)
+            k = self.rng.randint(0, n)
+            o['start'], o['end'] = self.rng.choice([(0, 0), (k, k), (n, n), (0, -n), (k, k - 1), (n + 2, None), (-1, -1)])
         if self.rng.random() < 0.1:
             o['sets'], o['S'] = [], []
         elif len(forms) == 1 and self.rng.random() < 0.3:
@@ -239,6 +243,11 @@ class Gen:
         if not r:
             return
         o = {'op': 'remove', 'r': r, 'start': self.bound(r, False) if self.rng.random() < 0.8 else 0, 'end': self.bound(r)}
+        if self.rng.random() < 0.1:
+            # an EMPTY range spelled in every way (end = 0 is not "no end"): the call must change nothing
+            n = self.length(r)
+            k = self.rng.randint(0, n)
+            o['start'], o['end'] = self.rng.choice([(0, 0), (0, 0), (k, k), (n, n), (0, -n), (k, k - 1), (n + 2, None), (-1, -1)])
         x = self.rng.random()
         if x < 0.27:
             o['all'] = True
@@ -363,6 +372,25 @@ class Gen:
         i = self.rng.randint(0, j - 1)
         self.do({'op': 'apply', 'r': r, 'sets': [{'k': 'aset', 'v': x}], 'S': [x], 'start': j, 'end': e, 'top': True})
         self.do({'op': 'apply', 'r': r, 'sets': [{'k': 'aset', 'v': y}], 'S': [y], 'start': i, 'end': e, 'top': self.rng.random() < 0.8})
+
+    def g_empty_accumulator(self):
+        """An EMPTY value accumulates other values (s = AnsiString(); s += a; s += b, or join('', a, b)); afterwards the
+        absorbed values are used again: they must not have been tied to the accumulator."""
+        if not self.room(8):
+            return
+        a = self.pick('S') or self.do({'op': 'new', 'cls': 'S', 'text': self.text(1), 'sets': [{'k': 'aset', 'v': '31'}], 'S': ['31']})['res'][0]
+        forms, S = self.settings()
+        b_ = self.do({'op': 'new', 'cls': self.rng.choice('SSA'), 'text': self.text(1), 'sets': forms, 'S': S})['res'][0]
+        if self.rng.random() < 0.5:
+            acc = self.do({'op': 'new', 'cls': 'S', 'text': '', 'sets': [], 'S': []})['res'][0]
+            self.do({'op': 'iadd', 'r': acc, 'other': a})
+            self.do({'op': 'iadd', 'r': acc, 'other': b_})
+        else:
+            e = self.do({'op': 'lit', 'text': ''})['res'][0]
+            self.do({'op': 'join', 'cls': self.rng.choice('SA'), 'items': [e, a, b_]})
+        self.probe_closed(a, 'probe_closed')
+        if self.m.kinds[a] == 'S' and self.rng.random() < 0.5:
+            self.do({'op': 'add', 'r': a, 'other': b_})
 
     def g_seam_stop_order(self):
         """The left operand closes two conflicting settings at its end in an order that differs from their precedence
@@ -1393,10 +1421,10 @@ PROFILES = {
                    strip=0.5, new_from=0.8),
     'C04': weights(iter_twice=1.2, slice=5, index=2, clip=2, iter=1.5, iter_join=0.6, apply=3, remove=1.5, pad=0.8, assign_str=0.6, strip=0.4,
                    same_form_nested=1.2, grow_then_slice=1.2),
-    'C05': weights(add=4, iadd=4, join=2, split_rejoin=2, slice=2, iter_join=1.0, shared_objects=0.8, seam_stop_order=1.0, seam_order=1.2, same_form_nested=1.0, join_plain_escapes=1.0),
+    'C05': weights(add=4, iadd=4, join=2, split_rejoin=2, slice=2, iter_join=1.0, shared_objects=0.8, empty_accumulator=1.0, seam_stop_order=1.0, seam_order=1.2, same_form_nested=1.0, join_plain_escapes=1.0),
     'C06': weights(apply=6, remove=1.5, slice=1, restart_leftover=1.5, bottom_at_begin=1.5, same_form_nested=1.5, apply_match=0.7),
     'C07': weights(remove=4, remove_edge=2.5, apply=5, clear=0.3, remove_prefixlike=1.2, remove_disjoint=1.2),
-    'C08': weights(parse_twice=1.5, copy=3, eq=0.8, add=2.5, iadd=2.5, join=1.5, slice=3, new_from=2, replace=2, pad=0.7, strip=0.5, split=0.5, fmt=0.7,
+    'C08': weights(empty_accumulator=0.8, parse_twice=1.5, copy=3, eq=0.8, add=2.5, iadd=2.5, join=1.5, slice=3, new_from=2, replace=2, pad=0.7, strip=0.5, split=0.5, fmt=0.7,
                    matching=0.5, case=0.3),
     'C09': weights(iter_join=1.0, iadd=2.5, replace=1.0, pad=2.0, pad_nested=1.0, pad_huge=0.15, fmt_huge=0.1, remove_edge=0.7, restart_leftover=0.5, shared_objects=0.8, split=0.7, partition=0.5, strip=0.5, rmfix=0.5, case=0.3,
                    assign_str=0.5, query=0.5, matching=0.5, simplify=0.3, expandtabs=0.3, splitlines=0.3),
